@@ -317,7 +317,7 @@ func genTxn(flows []flowSpec) *rapid.Generator[txnSpec] {
 			}
 			tx.Segs = append(tx.Segs, s)
 		}
-		switch rapid.IntRange(0, 11).Draw(t, "mut") {
+		switch rapid.IntRange(0, 12).Draw(t, "mut") {
 		case 0:
 			tx.Segs = append(tx.Segs, rapid.SampledFrom([]string{"a", "b", "z"}).Draw(t, "extra"))
 		case 1:
@@ -334,6 +334,16 @@ func genTxn(flows []flowSpec) *rapid.Generator[txnSpec] {
 			tx.Segs = nil
 		case 5:
 			tx.Host = rapid.SampledFrom([]string{"h.com", "api.h.com", "other.org"}).Draw(t, "ohost")
+		case 6:
+			// another host whose name extends the configured one by a label, with the path shortened by its first
+			// segment (a path parameter right behind the host must not swallow a host label), or the reverse
+			if len(tx.Segs) > 0 && rapid.Bool().Draw(t, "extend") {
+				tx.Host, tx.Segs = tx.Host+"."+tx.Segs[0], tx.Segs[1:]
+			} else if i := strings.LastIndex(tx.Host, "."); i > 0 && strings.Count(tx.Host, ".") >= 2 {
+				tx.Host, tx.Segs = tx.Host[:i], append([]string{tx.Host[i+1:]}, tx.Segs...)
+			} else {
+				tx.Host = "x." + tx.Host
+			}
 		}
 		tx.Method = rapid.SampledFrom(append(methods, "GET", "GET", "HEAD")).Draw(t, "method")
 		tx.Response = rapid.IntRange(0, 3).Draw(t, "resp") == 0
